@@ -3,6 +3,9 @@ import copy
 import importlib
 import itertools
 
+import os
+import time
+
 import numpy as np
 
 from pbv.instance import Instance
@@ -454,6 +457,62 @@ def layouts_untouched_bounded_instance():
     return Instance('C20', 'pb_bss:public-entry-points', 'bounded-memory-layouts-untouched', make, call, ensures, mode='bounded', bounded_n=300, frame=False)
 
 
+# ----------------------------------------------------------------------------- history-freedom by construction (static, all inputs)
+# persistent state of the unchanged tree: the documented per-trainer caches (C20 state list) and the lazily computed metrics of the
+# evaluation wrapper objects (pure functions of the immutable fields of one object)
+DOCUMENTED_STATE = {
+    'pb_bss/distribution/cbmm.py': {('attribute-write-on-self', 'CBMMTrainer.fit: self.dimension'),
+                                    ('cache-decorator', 'cached_property on CBMMTrainer.complex_bingham_trainer')},
+    'pb_bss/distribution/complex_bingham.py': {('attribute-write-on-self', 'ComplexBinghamTrainer.fit: self.dimension'),
+                                               ('cache-decorator', 'cached_property on ComplexBinghamTrainer.eigenvalues_symbol'),
+                                               ('cache-decorator', 'cached_property on ComplexBinghamTrainer.grad_log_norm_symbolic')},
+    'pb_bss/distribution/complex_watson.py': {('attribute-write-on-self', 'ComplexWatsonTrainer.fit: self.dimension'),
+                                              ('cache-decorator', 'cached_property on ComplexWatsonTrainer.spline')},
+    'pb_bss/distribution/cwmm.py': {('attribute-write-on-self', 'CWMMTrainer.fit: self.dimension'),
+                                    ('cache-decorator', 'cached_property on CWMMTrainer.complex_watson_trainer')},
+}
+
+
+def static_state_run(inst, tier, seed, replay_dir):
+    import pb_bss
+    from pbv import staticscan
+    t0 = time.time()
+    rep = {'key': inst.key, 'prop': inst.prop, 'func': inst.func, 'name': inst.name, 'obligations': [], 'paths': 1, 'infeasible': 0,
+           'undecided': [], 'violations': [], 'assumptions': [
+               'static scan (pbv/staticscan.py): writes through aliases of module-level objects, C extensions and patching from outside the '
+               'scanned packages are not seen; the documented per-trainer caches and the evaluation wrapper objects are covered by bounded reuse families'],
+           'crosscheck': {'samples': 0, 'compared': 0, 'mismatch': []}, 'vacuity': {'valid_samples': 1, 'defs_checked': 0, 'defs_bad': []},
+           'solver_time': 0.0, 'backends': {}, 'sample_obligation': None, 'error': None, 'tags': list(inst.tags)}
+    root = os.path.dirname(os.path.dirname(os.path.abspath(pb_bss.__file__)))
+    found = staticscan.scan_tree(root)
+    if len(found) < 30:
+        rep['vacuity']['defs_bad'].append('static scan saw only %d modules' % len(found))
+    for rel, writes in found.items():
+        name = 'no-persistent-state-outside-the-documented-caches[%s]' % rel
+        allowed = DOCUMENTED_STATE.get(rel, set())
+        if rel == 'pb_bss/evaluation/wrapper.py':
+            extra = [w for w in writes if not (w[0] == 'cache-decorator' and ('InputMetrics.' in w[1] or 'OutputMetrics.' in w[1]))]
+        else:
+            extra = [w for w in writes if w not in allowed]
+        ob = {'name': name, 'status': 'discharged', 'time': 0.0, 'backend': 'ast-scan', 'kind': 'ensures', 'nassert': max(1, len(writes))}
+        if extra:
+            ob['status'] = 'undecided'
+            rep['undecided'].append({'obligation': name, 'reason': 'state that outlives a call, not among the documented caches: %s -- history-freedom no longer '
+                                                                   'follows syntactically (the bounded reuse / history families decide)' % '; '.join('%s (%s)' % w for w in extra[:4])})
+        else:
+            rep['backends']['ast-scan'] = rep['backends'].get('ast-scan', 0) + 1
+        rep['obligations'].append(ob)
+    rep['sample_obligation'] = {'instance': inst.key, 'obligation': 'no-persistent-state-outside-the-documented-caches[pb_bss/evaluation/sxr_module.py]',
+                                'assertions': 1, 'smt2_head': '(AST scan) writes found in the module: %r' % (found.get('pb_bss/evaluation/sxr_module.py'),)}
+    rep['wall'] = round(time.time() - t0, 3)
+    return rep
+
+
+def static_state_instance():
+    return Instance('C20', 'pb_bss:all-modules', 'static-no-persistent-state', None, None, None, mode='custom',
+                    lemma={'run': static_state_run, 'replay': lambda payload: False}, crosscheck=False, frame=False, weight=1)
+
+
 def instances(tier):
     out = frame_instances(tier)
     for n in (2, 3, 4):
@@ -475,3 +534,10 @@ def instances(tier):
     out.append(loopinv.loop_invariant_instance('C20', 'cacgmm', False, tier))
     out.append(loopinv.loop_invariant_instance('C20', 'cacgmm', True, tier))
     return out
+
+
+_instances_before_static = instances
+
+
+def instances(tier):       # noqa: F811
+    return _instances_before_static(tier) + [static_state_instance()]
